@@ -195,6 +195,17 @@ def rule_schema(ck):
             (oo.fail('the reader changes the %s it read (`%s`): the number written - a value at the end of its range included - is not the one '
                      'loaded' % (slot, u(arith[0])[:50])) if arith and idx == {want[slot]} else
              oo.ok('column %d' % want[slot]) if idx == {want[slot]} else oo.fail('the reader takes the %s from column(s) %s, the writer puts it in column %d' % (slot, sorted(idx), want[slot])))
+    # the event id is read whatever the catalog-id column holds: a try that protects int(<catalog id>) must not also hold the read of the
+    # id column - a blank catalog id (the constructor default) would skip it and every id would be replaced by the line number
+    for t_ in [x for x in all_nodes(g) if isinstance(x, ast.Try)]:
+        idreads = [x for st_ in t_.body for x in ast.walk(st_) if isinstance(x, ast.Subscript) and isinstance(x.value, ast.Name) and x.value.id == 'line' and const_value(x.slice) == 6]
+        others = [x for st_ in t_.body for x in ast.walk(st_) if isinstance(x, ast.Call) and u(x.func) in ('int', 'float')]
+        if idreads and others and any(h_.type is None or 'ValueError' in u(h_.type) or 'Exception' in u(h_.type) for h_ in t_.handlers):
+            pos_id = min(t_.body.index(st_) for st_ in t_.body if any(x is idreads[0] for x in ast.walk(st_)))
+            pos_cv = min(t_.body.index(st_) for st_ in t_.body if any(x is others[0] for x in ast.walk(st_)))
+            oo = ck.ob('C14-D1.idread', g, 'the event id is read independently of the other columns', t_)
+            (oo.fail('`%s` stands in a try after `%s`: when that conversion fails (blank catalog id) the event id is never read and is '
+                     'replaced by the line number' % (u(idreads[0]), u(others[0])[:30])) if pos_id > pos_cv else oo.ok())
     rule_dialect(ck)
 
 
